@@ -118,7 +118,7 @@ CHECKS = {
   "PASS is logged only for a run that neither failed nor stopped; Fatalf's FAIL line carries the script's file name and current line number; runLine never dispatches an unknown command and indexes its argument list safely for every line; "
   "catchFailNow runs its callback only for the failNow panic value; the polarity applied to each [cond] guard is that of this very guard; demands of exists (every listed file exists, or with ! does not) and of stdout/stderr/grep/ttyout (match, or with ! no match; with -count=N exactly N matches) hold on every normal return; "
   "for cd, chmod, cp, mkdir, mv, symlink, unquote, unix2dos, stdin, stop, cmp/cmpenv, wait and rm a normal return means the command was not negated where negation is unsupported, was used with the right number of arguments (every args index in bounds), and (except rm's best-effort first removal) no file operation it performed failed; skip never returns normally. condition() is under contract (an operating-system name holds exactly for the current OS, an architecture name for the current architecture, unix per the table, gc/gccgo, exec: through the cache; anything else needs a user Condition, else Fatalf); the standalone command's Run never clears its failure flag (a failing script followed by a passing one still exits non-zero).",
-  "assumed: only non-panicking executions are modelled (a Fatalf call ends its path, recover() is nil), so runLine's boolean result and callBuiltinCmd's panic filtering are trusted, as are cmdEnv, waitBackgroundOne (bounded stand-in under C04), condition's user-callback closure, unix2DOS and the logging closures (setup and waitBackground are verified under C04); "
+  "assumed: only non-panicking executions are modelled (a Fatalf call ends its path, recover() is nil), so runLine's boolean result and callBuiltinCmd's panic filtering are trusted, as are waitBackgroundOne (bounded stand-in under C04), condition's user-callback closure, unix2DOS and the logging closures (setup and waitBackground are verified under C04); "
   "T.FailNow / T.Fatal do not return; regexp semantics are uninterpreted (matchP / countP). NOT decided: env, kill, ttyin; what a successful cp/mv/mkdir/... did to the file system (the OS's); the evaluation of a user-supplied Condition callback, background-command status in wait, and the standalone testscript command's exit status beyond 'the failure flag is never cleared'; exec's verdict is covered as far as C04's process accounting and the usage check go",
   "contract-based deductive verification: loop invariant over the script loop, call-site obligations and per-command postconditions over go/ssa; z3/cvc5"),
  "C02": ("5 C02",
@@ -143,7 +143,7 @@ CHECKS = {
   "a .info / .mod request answers with exactly one write, of the data of the first stored file named .info / .mod, and nothing else; the zip closure creates an entry only for stored files whose name does not start with a dot, "
   "under the name path@version/<file name> (byte-exact) and writes exactly that file's data into it; the list endpoint prints only versions of the requested module path that are not pseudo-versions and pass module.Check, and prints that entry's version; "
   "every request is answered (a body write or a status), a 404 never carries a body, missing archives / unknown extensions / undecodable paths give 404; the handler writes no field of the Server (frame: modList and the caches are read only); all slice/index expressions are in bounds for arbitrary URLs. The commit-hash resolution considers only versions of the requested module, updates its choice only to a semver-greater version, decides pseudo-versions by their suffix and others by findHash, and tests the prefix relation both ways; the path part is decoded with UnescapePath and the version part with UnescapeVersion; the directory walk never skips a directory; readModList splits names at the last _v.",
-  "assumed (trusted, not verified): readArchive/findHash/isPseudoVersion themselves are trusted (side-effect free); the archive-loading closures readArchive$1 / readArchive$1$1 and readModList are under contract (.txtar first, .txt only if absent, directory only if neither; the file read is the one visited; names split at the last _v); par.Cache.Do runs the closure and returns its value (C10's contract is not re-used here: a local thin contract, type assertion .(cached) assumed); "
+  "assumed (trusted, not verified): readArchive/findHash/isPseudoVersion themselves are trusted (side-effect free; isPseudoVersion's result is checked by the bounded stand-in only); the archive-loading closures readArchive$1 / readArchive$1$1 and readModList are under contract (.txtar first, .txt only if absent, directory only if neither; the file read is the one visited; names split at the last _v); par.Cache.Do runs the closure and returns its value (C10's contract is not re-used here: a local thin contract, type assertion .(cached) assumed); "
   "archive/zip, net/http, fmt.Fprintf, x/mod module and semver as extern contracts; byte-identity of the HTTP body on the wire and validity of the zip container are the libraries'; 'same under concurrent requests' follows only from the frame (handler writes no server state) plus C10 on paper; the commit-hash to version resolution is specified relative to abstract storedHash / prefix / semver-order functions, not to findHash's body",
   "contract-based deductive verification: call-site obligations and loop invariants over a ghost HTTP response, byte-level string concatenation for the zip entry names; z3/cvc5"),
  "C04": ("5 C04",
@@ -162,16 +162,23 @@ CHECKS = {
 
 # Additions made after the blind seeding round (appended to the claim texts above).
 EXTRA = {
- "C01": " cmdExec returns normally only if the outcome of the child matches the polarity: a failed start of a background command or a failed foreground run reaches the caller unless negated, and a negated foreground exec must have failed.",
+ "C01": " cmdExec returns normally only if the outcome of the child matches the polarity: a failed start of a background command or a failed foreground run reaches the caller unless negated, and a negated foreground exec must have failed. RunMain's wrapper exits with exactly the status the command function returned; a [go1.N] condition holds exactly when slices.Contains finds it among the toolchain's release tags.",
+ "C02": " env NAME=VALUE (cmdEnv): the name is the text before the first '=', the value the text after it, stored as given (no second expansion).",
  "C04": " RunT's per-script closure is handed to t.Run under the very name that was checked for distinctness; cmdExec's start/run errors reach the caller (not swallowed); the wait-for-one-background-command path (waitBackgroundOne) is covered by a BOUNDED stand-in only (pointers into slice elements are outside the modelled subset).",
  "C05": " copyFile returns nil only when the output file exists under its name.",
+ "C06": " Mutex.Lock opens and locks the file at mu.Path itself.",
+ "C07": " openFile with O_TRUNC returns a nil error for a regular file only after truncating it to length 0 (a failed truncation is ignored only for non-regular files).",
+ "C08": " testscript's cmp/cmpenv hand Diff exactly the two texts that were compared (call-site obligation in doCmdCmp).",
+ "C09": " When Do becomes a runner itself, all w.running runners have been started (otherwise waiting == running is never reached).",
  "C11": " copyFile returns nil only when the output file exists; put itself never removes or truncates a file.",
- "C12": " put itself never removes or truncates a file; copyFile never reopens for writing an existing output whose size and hash already match, passes O_TRUNC only when the existing file is longer than the new content, and truncates only to zero.",
- "C13": " GetBytes reads the data file only after its mtime was refreshed (younger than one hour before the call, when no file operation fails), like GetFile.",
- "C14": " What txtar-c hands to NeedsQuote is the file's bytes as read, changed at most by one added final newline.",
- "C15": " cmd/txtar-x's main extracts the freshly parsed archive with txtar.Write into the directory given by -C and ends with exit status 1 exactly when Write failed; cmd/txtar-c's main walks from the cleaned directory argument, so entry names are relative to it.",
+ "C12": " put itself never removes or truncates a file; copyFile never reopens for writing an existing output whose size and hash already match, passes O_TRUNC only when the existing file is longer than the new content, and truncates only to zero. The lookup side (GetFile's size gate, GetBytes' checksum gate, get's record layout) is part of this check's set.",
+ "C13": " GetBytes reads the data file only after its mtime was refreshed (younger than one hour before the call, when no file operation fails), like GetFile. A due Trim makes exactly 256 trimSubdir passes, the i-th on Join(dir, Sprintf(\"%02x\", i)).",
+ "C14": " What txtar-c hands to NeedsQuote is the file's bytes as read, changed at most by one added final newline. isMarker, findFileMarker and fixNL (through which NeedsQuote's contract is discharged) are part of this check's set.",
+ "C15": " cmd/txtar-x's main extracts the freshly parsed archive with txtar.Write into the directory given by -C and ends with exit status 1 exactly when Write failed; cmd/txtar-c's main walks from the cleaned directory argument, so entry names are relative to it. For the round-trip clause, the quoting functions (NeedsQuote, Quote, lemma quotedSafe), the marker scanner and Parse, with both txtar stand-ins (BOUNDED), are part of this check's set.",
+ "C16": " run (which must hold applyScriptUpdates on the defer stack before any line runs or fails) is part of this check's set.",
  "C18": " scanFiles (the caller that feeds files to ReadImports) is in this check's set: it reads imports without syntax-error reporting and only from the opened file.",
  "C19": " scanFiles evaluates ShouldBuild on exactly the bytes it read and with the caller's tag map (unless the files were named explicitly).",
+ "C20": " par.Cache's Do and Get (C10's rely-guarantee contracts) are part of this check's set; isPseudoVersion is compared with golang.org/x/mod/module.IsPseudoVersion by a BOUNDED stand-in over composed version strings (no build metadata other than +incompatible).",
 }
 
 NOT_YET = "not yet brought under contract in this round of work (see DESIGN.md section 8 build order); no check is registered, so nothing is claimed"
